@@ -126,8 +126,14 @@ def run(tier):
         if rec['dropped']:
             chk.violation('zonedb:%s:cache-overflow' % n_, 'BasicZoneProcessor needed more than 5 cache slots (%d transitions dropped)' % rec['dropped'], {'zone': n_})
     # (iv) compiler-generated zones: the sizes BufSizeEstimator writes into freshly generated tables against the high-water
-    #      marks of the real processors reading those tables (and the basic cache bound on the generated basic tables)
-    gsrc = [('shipped-zonedbx', compiler.lines_shipped('zonedbx'))] + ([('tz2025b', compiler.lines_2025b())] if tier == 'thorough' else [])
+    #      marks of the real processors reading those tables (every year the processors accept: 1999..2050), the basic cache
+    #      bound on the generated basic tables, and the same bounds as invariants of ExtProc.tla / BasicProc.tla bound to them
+    import random
+    from .. import extproc
+    rnd = random.Random(common.seed() * 7919 + 3)
+    gsrc = [('shipped-zonedbx', compiler.lines_shipped('zonedbx')), ('gen', compiler.gen_source(rnd, 40 if tier == 'quick' else 160))]
+    if tier == 'thorough':
+        gsrc.append(('tz2025b', compiler.lines_2025b()))
     gzy = 0
     gzones = 0
     for gname, lines in gsrc:
@@ -137,45 +143,44 @@ def run(tier):
         for scope in ('extended', 'basic'):
             res, out, err = compiler.run_compiler(lines, gw, scope, flags=('arduino',))
             if res is None:
-                chk.violation('generated:%s:%s:compiler-crash' % (gname, scope), 'the compiler failed on source %s (%s): %s' % (gname, scope, err), {'source': gname})
+                if gname == 'gen':
+                    chk.notes.append('generated source not accepted by the compiler (%s)' % scope)
+                else:
+                    chk.violation('generated:%s:%s:compiler-crash' % (gname, scope), 'the compiler failed on source %s (%s): %s' % (gname, scope, err), {'source': gname})
             else:
                 outs[scope] = (res, out)
         if len(outs) != 2:
             continue
-        exe, err = compiler.build_scanner_for(os.path.join(outs['basic'][1], 'arduino'), os.path.join(outs['extended'][1], 'arduino'), 'tzscan-c09-' + gname)
-        if exe is None:
+        exes, err = compiler.build_tools_for(os.path.join(outs['basic'][1], 'arduino'), os.path.join(outs['extended'][1], 'arduino'), 'c09-' + gname)
+        if exes is None:
             chk.violation('generated:%s:does-not-compile' % gname, 'generated C++ tables do not compile: %s' % err[-1500:], {'source': gname})
             continue
-        ngx = len(outs['extended'][0]['emitted_zones'])
-
-        def gbufs(rng, exe=exe):
-            rc, out_, err_, _ = common.run_cmd([exe, 'bufs', 'extended', str(rng[0]), str(rng[1])], timeout=3000)
-            return rng, rc, [json.loads(l) for l in out_.splitlines() if l.startswith('{')], err_[-800:]
-        seen = 0
-        for rng, rc, recs, err_ in common.tmap(gbufs, [(i, min(i + 25, ngx)) for i in range(0, ngx, 25)]):
-            if rc != 0:
-                chk.violation('generated:%s:bufs-crash:%d-%d' % ((gname,) + rng), 'buffer sweep on generated tables crashed rc=%s %s' % (rc, err_), {})
-                continue
-            for r in recs:
-                seen += 1
-                worst = max(r['years'], key=lambda yr: yr[1])
-                gzy += len(r['years'])
-                if worst[1] >= r['bufSize'] or worst[1] >= 8:
-                    chk.violation('generated:%s:%s:high-water' % (gname, r['zone']), 'generated table for %s records transitionBufSize %d but the extended processor reaches a high-water mark of %d in %d (capacity 8)' % (r['zone'], r['bufSize'], worst[1], worst[0]), {'zone': r['zone'], 'year': worst[0], 'source': gname})
-        if seen != ngx:
-            chk.violation('generated:%s:zones-missing' % gname, 'generated registry has %d zones, the compiler emitted %d' % (seen, ngx), {})
-        gzones += seen
-        gb, crashes = tzconf.scan_db(exe, 'basic', len(outs['basic'][0]['emitted_zones']), 14 * 86400, 0, chunk=20)
-        for n_, rec in gb.items():
-            if rec['dropped']:
-                chk.violation('generated:%s:%s:cache-overflow' % (gname, n_), 'BasicZoneProcessor needed more than 5 cache slots on the generated table (%d transitions dropped)' % rec['dropped'], {'zone': n_})
-        gzones += len(gb)
+        for scope, invs in (('extended', ['NoOverflow', 'WithinRecordedSize']), ('basic', ['FitsCache'])):
+            d = extproc.dump_tables(exes['dbdump'], scope)
+            obs = extproc.impl_tables(exes['pairdrv'], len(d['zones']), 1999, 2050, mode=extproc.SPECS[scope][1])
+            if sorted(obs) != sorted(outs[scope][0]['emitted_zones']):
+                chk.violation('generated:%s:%s:zones-missing' % (gname, scope), 'generated registry lists %d zones, the compiler emitted %d' % (len(obs), len(outs[scope][0]['emitted_zones'])), {})
+            gzones += len(obs)
+            if scope == 'extended':
+                size = {z['name']: z['bufSize'] for z in d['zones']}
+                for zn, years in sorted(obs.items()):
+                    gzy += len(years)
+                    yw, worst = max(years.items(), key=lambda kv: kv[1]['hw'])
+                    if worst['hw'] >= size[zn] or worst['hw'] >= 8:
+                        chk.violation('generated:%s:%s:high-water' % (gname, zn), 'generated table for %s records transitionBufSize %d but the extended processor reaches a high-water mark of %d in %s (capacity 8)' % (zn, size[zn], worst['hw'], yw), {'zone': zn, 'year': int(yw), 'source': gname})
+            else:
+                for zn, years in sorted(obs.items()):
+                    gzy += len(years)
+                    dr = [(y, v['dropped']) for y, v in years.items() if v['dropped']]
+                    if dr:
+                        chk.violation('generated:%s:%s:cache-overflow' % (gname, zn), 'BasicZoneProcessor needed more than 5 cache slots on the generated table (%s)' % dr[:3], {'zone': zn})
+            extproc.check_tables(chk, 'generated:' + gname, d, obs, None, gw, scope=scope, invariants=invs)
     chk.sample({'pool_trace': traces[len(traces) // 2]})
     chk.add(states=st + r1.distinct + r3.distinct, transitions=tr + r1.generated + r3.generated,
             traces_validated_against_impl=nscripts + len(traces), model_edges_replayed=nscripts, replayed_calls=nsteps,
             value_type_operations_under_sanitizers=nops, zone_observations_under_sanitizers=nobs, ub_sites_seen=len(sites),
             zone_years_buffer_checked=nzy, max_high_water=maxhw, distinct_pool_event_traces=len(traces), pool_traces_accepted=acc,
             basic_zones_cache_checked=len(bimpl), generated_zone_years_buffer_checked=gzy, generated_zones_checked=gzones,
-            rule='(i) every transition of ZoneProc (arguments valid / below / above range / the sentinel) replayed under ASan+UBSan; (ii) value-type operations swept over int32 (stride %d + boundaries) and boundary component tuples / strings in a UBSan-recover build, every distinct UB site reported; zone processors swept under sanitizers at %d s; (iii) high-water mark and pool event protocol (hook H2) of every zonedbx zone x year 1999..2050 against TransitionPool.tla, basic cache drops (hook H1); (iv) the same high-water / cache bounds on tables freshly generated by the real compiler (BufSizeEstimator sizes) from the shipped source' % (stride, grid) + (' and tzdata 2025b' if tier == 'thorough' else ''))
+            rule='(i) every transition of ZoneProc (arguments valid / below / above range / the sentinel) replayed under ASan+UBSan; (ii) value-type operations swept over int32 (stride %d + boundaries) and boundary component tuples / strings in a UBSan-recover build, every distinct UB site reported; zone processors swept under sanitizers at %d s; (iii) high-water mark and pool event protocol (hook H2) of every zonedbx zone x year 1999..2050 against TransitionPool.tla, basic cache drops (hook H1); (iv) the same high-water / cache bounds, years 1999..2050, on tables freshly generated by the real compiler (BufSizeEstimator sizes) from the shipped source and a generated source' % (stride, grid) + (' and tzdata 2025b' if tier == 'thorough' else '') + ', read from the real processors and as invariants NoOverflow / WithinRecordedSize / FitsCache of ExtProc.tla / BasicProc.tla bound to those processors')
     chk.assume('undefined behaviour and out-of-bounds accesses are decided by ASan/UBSan on the executions the models and sweeps generate, not by TLC')
     return chk.finish()
